@@ -2,8 +2,8 @@
 import os
 from tools.py2lean import gen_c18
 
-LEAN_TARGETS = ["EasyFEAVerif.Props.C18"]
-PROPS_MODULES = ["EasyFEAVerif.Props.C18"]
+LEAN_TARGETS = ["EasyFEAVerif.Props.C18", "EasyFEAVerif.Props.C18Operators"]
+PROPS_MODULES = ["EasyFEAVerif.Props.C18", "EasyFEAVerif.Props.C18Operators"]
 TRUSTED_EXTRA = [
     "C18: invariants I1, I2, I3 with their gradient / Hessian tables and the laws NeoHookean, MooneyRivlin, SaintVenantKirchhoff, CiarletGeymonat are translated from the source (laws as Laurent polynomials in w = I3^(1/6), CiarletGeymonat with the extra term L log w for -K log sqrt(I3), log(w^k) = k log w done by the translator: the substitution I3^(p/3) = w^(2p), sqrt(I3) = w^3 is done by the translator and validated numerically by the correspondence); the combination of the derivatives into dW/de and d2W/de2 is matched as a statement and re-implemented in the driver",
     "C18: HolzapfelOgden, AutoDiff energies, the nonlinear element operators and the discrete energy balance are decided by finite differences and long runs on the real code (partial)",
